@@ -97,6 +97,21 @@ func c04Run(hseed int64, relaxed bool, v c04Variant) (*c04Result, error) {
 		w.AddRoot(n)
 		roots = append(roots, n)
 	}
+	// every other history also keeps a scratch container at the temporary address: its slabs stay in the write set for
+	// ever (never written), in between the owned ones
+	var temp *Node
+	if hseed%2 == 1 {
+		var err error
+		if hseed%4 == 1 {
+			temp, err = w.NewRootArray(atree.AddressUndefined, w.newTI(false))
+		} else {
+			temp, err = w.NewRootMap(atree.AddressUndefined, w.newTI(false), nil)
+		}
+		if err != nil {
+			return nil, err
+		}
+		w.AddRoot(temp)
+	}
 	res := &c04Result{}
 	hist := &HistCfg{DescendPct: 30, PopOnChild: true}
 	commit := func() error {
@@ -125,7 +140,14 @@ func c04Run(hseed int64, relaxed bool, v c04Variant) (*c04Result, error) {
 		if err := w.Step(root, ph, hist); err != nil {
 			return nil, err
 		}
-		if i%27 == 0 {
+		if temp != nil && i%5 == 0 {
+			if err := w.Step(temp, PhaseChurn, &HistCfg{DescendPct: 10}); err != nil {
+				return nil, err
+			}
+		}
+		// commits of many changes, and (operations 110..139) a commit after every single operation: write sets with
+		// at most one modified slab and a few deletions
+		if i%27 == 0 || (i >= 110 && i < 140) {
 			if err := commit(); err != nil {
 				return nil, err
 			}
@@ -135,8 +157,19 @@ func c04Run(hseed int64, relaxed bool, v c04Variant) (*c04Result, error) {
 			if err := commit(); err != nil {
 				return nil, err
 			}
+			// the scratch container lives in memory only: it is abandoned with the old storage and a new one is started
+			if temp != nil {
+				w.roots = w.roots[:len(w.roots)-1]
+			}
 			if err := w.Reopen(); err != nil {
 				return nil, err
+			}
+			if temp != nil {
+				var err error
+				if temp, err = w.NewRootArray(atree.AddressUndefined, w.newTI(false)); err != nil {
+					return nil, err
+				}
+				w.AddRoot(temp)
 			}
 		}
 	}
@@ -260,6 +293,39 @@ func runC04(c *CaseCtx) *CaseResult {
 			res.fail(viol("determinism", "%s", msg))
 			return res
 		}
+	}
+	// the other commit flavour on the same history: "the order-relaxed commit may differ only in that order", so the final
+	// registers and map seeds must be the same
+	{
+		r, err := c04Run(hseed, !relaxed, variants[0])
+		if err != nil {
+			if vv, ok := err.(*Violation); ok {
+				res.fail(viol(vv.Sig, "other commit flavour: %s", vv.Msg))
+			} else {
+				res.fail(viol("harness", "other commit flavour: %v", err))
+			}
+			return res
+		}
+		if regsDigest(r.regs) != regsDigest(first.regs) || fmt.Sprint(r.seeds) != fmt.Sprint(first.seeds) || len(r.commitLogs) != len(first.commitLogs) {
+			res.fail(viol("determinism-flavour", "the deterministic and the order-relaxed commit produced different registers for the same history: %v", diffRegs(first.regs, r.regs)))
+			return res
+		}
+		// per commit: same multiset of writes and deletions
+		for ci := range r.commitLogs {
+			ms := func(log []LedgerCall) string {
+				e := make([]string, len(log))
+				for i, c := range log {
+					e[i] = fmt.Sprintf("%c|%s|%d|%x", c.Kind, c.ID, c.Len, c.Hash)
+				}
+				sort.Strings(e)
+				return strings.Join(e, ",")
+			}
+			if ms(r.commitLogs[ci]) != ms(first.commitLogs[ci]) {
+				res.fail(viol("determinism-flavour", "commit %d: the two commit flavours issued different sets of writes / deletions", ci))
+				return res
+			}
+		}
+		res.Obs["histories-compared-across-commit-flavours"]++
 	}
 	res.Obs["distinct-relaxed-store-orders"] += len(storeOrders)
 	// cross-process exchange: the orchestrator compares these files for the same history
@@ -945,10 +1011,10 @@ func init() {
 	register(&Prop{
 		ID: "C04", Level: "exploration", Run: runC04, Cases: cases(c04Histories*2, 801*3), MinNonTrivial: 8, Post: c04Post,
 		Rule: "each of 161 (quick) / 801 (thorough) seeded histories over 4 owner addresses (two differing only in the last byte, one with a high first byte, slab indexes starting just below 255 / 65535 / 2^32), nested inlined children, composite-typed maps, deletions, a reload point, is executed as replicas that vary worker count {1,2,3,8,64}, GOMAXPROCS {1,2,16}, scheduling jitter in ledger calls, object-pool state (GC twice / unrelated work first) " +
-			"and PROCESS (the same history runs in 2 (quick) / 3 (thorough) different worker processes, 3 replicas each). Compared: for the deterministic commit the exact sequence of ledger writes/deletes (id, length, content hash) of every commit and strict ascending (owner bytes, index bytes) order; for the relaxed commit the multiset of writes; final registers byte-for-byte; map seeds. " +
+			"and PROCESS (the same history runs in 2 (quick) / 3 (thorough) different worker processes, 3 replicas each). Every other history keeps a scratch container at the temporary address (its slabs stay pending among the owned ones) and operations 110-139 are each followed by a commit (write sets with <= 1 modified slab plus deletions); each history is also run once with the OTHER commit flavour: final registers, map seeds and the per-commit multisets of writes must be equal. Compared: for the deterministic commit the exact sequence of ledger writes/deletes (id, length, content hash) of every commit and strict ascending (owner bytes, index bytes) order; for the relaxed commit the multiset of writes; final registers byte-for-byte; map seeds. " +
 			"non-trivial = a commit with >=8 writes over >=2 owners incl. >=1 deletion was compared; distinct by (history, process group, digest)",
 		Assumptions: []string{"'all interleavings / all map iteration orders' is sampled by repetition across replicas and processes, not enumerated"},
-		Mandatory:   []string{"replicas", "histories-compared-across-processes", "commits-with-8-writes-2-owners-and-a-deletion", "distinct-relaxed-store-orders"},
+		Mandatory:   []string{"replicas", "histories-compared-across-processes", "histories-compared-across-commit-flavours", "commits-with-8-writes-2-owners-and-a-deletion", "distinct-relaxed-store-orders"},
 	})
 	register(&Prop{
 		ID: "C16", Level: "exploration", Run: runC16, Cases: cases(96, 480), MinNonTrivial: 8, Race: true,
